@@ -21,6 +21,11 @@ var Specs = map[string]*core.Spec{
 		Real: w3Real, Stub: w3Stub,
 		RequiredProbes: []string{"acked-write-checked", "linearizable-read-checked", "raft-linearizable-read-on-lagging-replica", "overlapping-calls", "acked-txn-empty-branch"},
 		Assumptions:    []string{"the Raft stand-in honours dragonboat's contract (DESIGN appendix A): a proposal completes when the proposing node's replica applied it; SyncRead applies everything committed at call time first", "state-machine calls are atomic with respect to each other in W3 (stand-in lock); sub-call interleavings are W1's business"}},
+	"C16": {Prop: "C16", World: "W3 clustersim", Gen: GenC16, Decode: Decode, Exec: Exec,
+		Rule: "valid client traffic mixed with requests drawn from a grammar of violations (missing table/key, negative limit, keys_only+count_only, each unsupported revision filter, keys 1025/4096 bytes, range end 1025, values 2 MiB+1, unknown table, table mutations on a follower, empty names, empty oneofs), each also nested inside transaction operations, plus the valid boundary cases (key 1024, value 2 MiB), sent through real gRPC to a leader node and to a follower node; oracle: non-OK status in the allowed code set, no new command in any table shard of the leader cluster, catalogue unchanged, the node still answers, no state-machine failure; the input space has no schedule dimension - stated plainly; non-trivial = every run (each sends several violating requests); distinct = digests of status-code sequences",
+		Real: w3Real, Stub: w3Stub,
+		RequiredProbes: []string{"raw-nested", "raw-key-1025", "raw-value-2mib+1", "raw-ok-key-1024", "raw-ok-value-2mib", "raw-follower-table-create", "raw-empty-oneof"},
+		Assumptions:    []string{"a process-killing panic in a handler kills the worker process; the runner attributes it to the schedule that was running and reports it as a violation of this property"}},
 }
 
 func TestRun(t *testing.T) { core.Main(t, Specs) }
